@@ -8,7 +8,7 @@ from gev import core, evo, workload
 
 PROPERTY = "C14"
 LEVEL = "exploration"
-TECHNIQUE = "runtime monitor: a delegating budget wrapper (extension API) logs every is_done check (evaluations so far, inner verdict, best fitness) and a fitness-invocation log gives the true count; an offline checker over the check history decides first-check-after-n, the bounds, TargetFitness at its first satisfying check and AnyOf == a or b; termination is decided as bounded progress by a logical watchdog on the number of checks"
+TECHNIQUE = "runtime monitor: a delegating budget wrapper (extension API) logs every is_done check (evaluations so far, inner verdict, best fitness) and a fitness-invocation log gives the true count; an offline checker over the check history decides first-check-after-n, the bounds, TargetFitness at its first satisfying check and AnyOf == a or b; termination is decided as bounded progress by a logical watchdog on the number of checks; in GP runs a delegating step logs which individuals enter each generation, so the target budget is judged independently of the tracker's own record; runs through the geml.SimpleGP front-end have their budget wrapped after construction"
 RULE = (
     "cases = (algorithm in GP/RS/HC/1+1, n in 1..60, population / neighbourhood size 1..12, representation, step composition incl. zero-creation ones, "
     "budget in {EvaluationBudget, TargetFitness, AnyOf of both in either order}, integer-valued landscape incl. plateaus and never-reaching ones); plus runs through the geml.SimpleGP front-end (target_fitness in None/0/0.0/-0.0/other, max_evaluations), whose own budget is wrapped after construction; "
